@@ -126,7 +126,14 @@ def hist_body(prop, k, sel, dup=False):
                 task, name = ALGS[e[1]]
                 target, run = SLOTS[e[2]]
                 # C07 wants repeating contents, C06 distinct ones
-                content = f'c{step}' if prop == 'C06' and not dup else f'c{e[2] % 2}'
+                if prop == 'C07':
+                    content = f'c{e[2] % 2}'
+                elif dup:
+                    # two contents shared by all keys, alternating per step: a key is rewritten with a content
+                    # that is already in the store because it was written before, here or under another key
+                    content = f'c{(e[2] + step) % 2}'
+                else:
+                    content = f'c{step}'
                 rt.note(f'UPDATE {task}.{name} {target} run={run} content={content}')
                 before = set(w.store())
                 alg, nv = do_update(ae, task, name, target, run, content)
